@@ -97,6 +97,12 @@ TABLE = {
         note="Trusted: renderer provenance + layout engine (cross-checked: every generated text is accepted and C09 verifies token positions independently); AST shape as established by C02/C03/C05.",
         ref="DESIGN.md section 4, C11",
     ),
+    "C16": dict(
+        technique="scalable-family generation (enumerated units and ordered pairs, Hypothesis-composed triples, repetition families) with a deterministic work oracle (Python call events under the pycparser package via sys.setprofile) and doubling-ratio tests; CPU-time ratio tests on large inputs and creeping wall-time tests for the lexer regexes",
+        text="All single nesting units and ordered pairs of 36 expression, 14 statement and 9 declarator units, Hypothesis-drawn triples and 35 repetition families are parsed at doubling sizes; the number of pycparser-internal calls must at most double (x2.3 + slack) per doubling. Work invisible to the call counter is covered by CPU-time ratios at 3 200 vs 12 800 repetitions (11 families) and by timing 29 adversarial literal families for the lexer. Complete over the enumerated units; the timing halves have wide margins and re-measure before reporting.",
+        note="Trusted: call counting by package directory; timing thresholds (5.5x for 4x input, 0.5 s for <= 64 units of an escape run). The exponential re-parse of a compound literal inside the type name of a compound literal is a known finding (F30) and excluded.",
+        ref="DESIGN.md section 4, C16",
+    ),
 }
 
 NOT_YET = "check not built yet in this session (work in progress; see DESIGN.md section 9 for the order of work)"
